@@ -14,6 +14,7 @@ import (
 	"container/list"
 	"context"
 	"fmt"
+	"sort"
 
 	"github.com/ipfs/go-cid"
 	cidlink "github.com/ipld/go-ipld-prime/linking/cid"
@@ -232,38 +233,38 @@ func (vf *VersionedFetcher) seekTo(c cid.Cid) error {
 		return err
 	}
 
-	// if we have a queuedCIDs length of 0, means we don't need
-	// to do any more state serialization
-
-	// for cid in CIDs {
-	///
-	/// vf.merge(cid)
-	/// // Note: we need to determine what state we are "Merging"
-	/// // into. This isn't necessary for the base case where we only
-	/// // are concerned with generating the Versioned state for a single
-	/// // CID, but for multiple CIDs, or if we reuse the transient store
-	/// // as a cache, we need to swap out states to the parent of the current
-	/// // CID.
-	// }
+	// A block must be merged after all of its parents, and height strictly increases
+	// from parent to child.
+	type queuedBlock struct {
+		cid    cid.Cid
+		height uint64
+	}
+	queued := make([]queuedBlock, 0, vf.queuedCids.Len())
 	for ccv := vf.queuedCids.Front(); ccv != nil; ccv = ccv.Next() {
 		cc, ok := ccv.Value.(cid.Cid)
 		if !ok {
 			return client.NewErrUnexpectedType[cid.Cid]("queueudCids", ccv.Value)
 		}
-		err := vf.merge(cc)
+		block, err := vf.getDAGBlock(cc)
+		if err != nil {
+			return NewErrFailedToMergeState(err)
+		}
+		queued = append(queued, queuedBlock{cid: cc, height: block.Delta.GetPriority()})
+	}
+	sort.SliceStable(queued, func(i, j int) bool {
+		return queued[i].height < queued[j].height
+	})
+
+	// after seekNext is completed, we have a populated
+	// queued list of all the composite blocks of the target
+	// version's history, each of which is merged exactly once.
+	merged := make(map[cid.Cid]struct{})
+	for _, q := range queued {
+		err := vf.merge(q.cid, merged)
 		if err != nil {
 			return NewErrFailedToMergeState(err)
 		}
 	}
-
-	// we now have all the required state stored
-	// in our transient local Version_Index, we now need to
-	// transfer it to the Primary_Index.
-
-	// Once all values are transferred, exit with no errors
-	// Any future operation can resume using the current PrimaryIndex
-	// which is actually the serialized state of the CRDT graph at
-	// the exact version
 
 	return nil
 }
@@ -309,9 +310,9 @@ func (vf *VersionedFetcher) seekNext(c cid.Cid, topParent bool) error {
 		return NewErrVFetcherFailedToDecodeNode(err)
 	}
 
-	// only seekNext on parent if we have a HEAD link
-	if len(block.Heads) != 0 {
-		err := vf.seekNext(block.Heads[0].Cid, true)
+	// seekNext on every parent, a block can have several if the history has branched
+	for _, head := range block.Heads {
+		err := vf.seekNext(head.Cid, true)
 		if err != nil {
 			return err
 		}
@@ -336,7 +337,12 @@ func (vf *VersionedFetcher) seekNext(c cid.Cid, topParent bool) error {
 // gets the existing MerkleClock instance, or creates one.
 //
 // Currently we assume the CID is a CompositeDAG CRDT node.
-func (vf *VersionedFetcher) merge(c cid.Cid) error {
+func (vf *VersionedFetcher) merge(c cid.Cid, merged map[cid.Cid]struct{}) error {
+	if _, ok := merged[c]; ok {
+		return nil
+	}
+	merged[c] = struct{}{}
+
 	// get node
 	block, err := vf.getDAGBlock(c)
 	if err != nil {
@@ -395,8 +401,9 @@ func (vf *VersionedFetcher) merge(c cid.Cid) error {
 		}
 	}
 
+	// The block is merged into the transient store, the heads of the document must not be touched.
 	err = coreblock.ProcessBlock(
-		vf.ctx,
+		datastore.CtxSetTxn(vf.ctx, vf.store),
 		mcrdt,
 		block,
 		cidlink.Link{
@@ -408,8 +415,9 @@ func (vf *VersionedFetcher) merge(c cid.Cid) error {
 	}
 
 	// handle subgraphs
-	for _, l := range block.AllLinks() {
-		err = vf.merge(l.Cid)
+	// the parents are merged via the queue, only the linked (field) blocks are merged from here
+	for _, l := range block.Links {
+		err = vf.merge(l.Cid, merged)
 		if err != nil {
 			return err
 		}
